@@ -393,7 +393,12 @@ type runner struct {
 	parked   chan struct{}
 	resume   chan struct{}
 	nowVal   int64
+	hung     bool
 }
+
+// hangs counts calls that never returned; after a few the run stops generating
+// (every further case would wait for the watchdog too).
+var hangs int
 
 // maybePark parks the calling goroutine once, if a pair armed this hook.
 func (r *runner) maybePark(kind string) {
@@ -675,11 +680,17 @@ func (r *runner) apply(o Op) (res ObsJ) {
 	now := o.Now
 	cache.Now = func() time.Time { r.maybePark("now"); return time.Unix(0, now) }
 	done := make(chan ObsJ, 1)
+	if r.hung { // an earlier call of this case never returned (and may hold locks)
+		return ObsJ{Res: "panic", Msg: "not run: an earlier call hangs"}
+	}
 	go func() { done <- r.exec(o) }()
 	select {
 	case res = <-done:
-	case <-time.After(20 * time.Second):
+	case <-time.After(5 * time.Second):
 		res = ObsJ{Res: "panic", Msg: "hang"}
+		r.hung = true
+		hangs++
+		return res // the cache may be locked for good: no Query
 	}
 	if o.Tgt != "" {
 		r.know(o.Tgt)
@@ -728,7 +739,23 @@ func runCase(c *Case) {
 	}
 	r := &runner{shared: shared{}}
 	cache.Now = func() time.Time { return time.Unix(0, 0) }
-	r.c = cache.New(c.Targets, opts...)
+	// nil options are legal (WithLatencyWindows returns one) and are skipped
+	opts = append([]cache.Option{nil}, append(opts, nil)...)
+	func() {
+		defer func() {
+			if p := recover(); p != nil {
+				r.c = nil
+			}
+		}()
+		r.c = cache.New(c.Targets, opts...)
+	}()
+	if r.c == nil { // the constructor panicked: every call of the case is reported as a panic
+		c.Obs = make([]ObsJ, len(c.Ops))
+		for i := range c.Obs {
+			c.Obs[i] = ObsJ{Res: "panic", Msg: "cache.New panicked"}
+		}
+		return
+	}
 	for _, t := range c.Targets {
 		r.know(t)
 	}
@@ -740,6 +767,14 @@ func runCase(c *Case) {
 		n, ok := l.Value().(*pb.Notification)
 		if !ok {
 			panic(fmt.Sprintf("callback got a %T", l.Value()))
+		}
+		// a callback may read the cache (subscribers do): re-enter with a Query of this target
+		// (not from Cache.Remove's announcement: Remove calls the callback while it
+		// holds the cache-wide lock exclusively, a Query from there deadlocks -- on HEAD)
+		isTargetDelete := len(n.GetUpdate()) == 0 && len(n.GetDelete()) == 1 && n.GetPrefix().GetOrigin() == "" &&
+			len(n.GetDelete()[0].GetElem()) == 1 && n.GetDelete()[0].GetElem()[0].GetName() == "*"
+		if tn := n.GetPrefix().GetTarget(); tn != "" && !isTargetDelete {
+			r.c.Query(tn, []string{"zz-none"}, func([]string, *ctree.Leaf, interface{}) error { return nil })
 		}
 		if !isMetaNoti(n) { // metadata is projected out, as in the dump
 			r.mu.Lock()
@@ -1074,6 +1109,9 @@ type emitter struct {
 }
 
 func (e *emitter) add(c *Case) {
+	if hangs >= 4 {
+		return
+	}
 	runCase(c)
 	e.cf.add(c)
 	nontrivial := false
